@@ -27,6 +27,7 @@ CLAIMED["C09"] = ("full for the safety half and conditional completion (sequenti
 CLAIMED["C12"] = ("partial; known findings D12a, D12b, D12c", "single-lock theorems in any world (the panicking operation kills exactly that lock, propagates; a killed lock refuses try without touching the raw lock and panics a blocking acquisition; kill flags are never cleared); for collections the model reproduces the source's unwind bookkeeping and the four-clause monitor runs on model and implementation with a one-shot panic at every raw-operation index; three defect classes are refuted on witnesses and listed as known findings", "7 C12, 11", "case analysis per operation + differential fault injection + vm_compute refutation witnesses")
 CLAIMED["C14"] = ("partial; known finding F4 (holds moved out of a collection guard)", "ApiTable.v is regenerated from rustc's own description of the API (rustdoc JSON) on every run; C14_key_linear: no sequence of safe public calls of any length gives a thread two live key carriers (induction over client operations whose effects come from the table; K1-K4 evaluated on the table); C14_holds_stay_attached under K5, refuted on the current tree (C14_refuted_take); rustc's verdict on one offending program per escape route (with compiling twins) is compared with the model's prediction", "7 C14", "generated model (translator over rustdoc JSON) + induction over client operation sequences + rustc corpus")
 CLAIMED["C15"] = ("partial; known finding F5 (scoped closure argument outlives the call)", "C15_auto_traits_at_least_std: for every type of the (unboundedly nested) language of locks, guards, collections, wrappers, references and tuples, Send/Sync as rustc derives them from the tree's impls imply the standard library's bounds (induction over the type language against the regenerated table); C15_table_wf (unsafe-only entry points, no shared access into owned collections, no OwnedLockable for &T); rustc corpus with twins and a rustc-decided Send/Sync grid compared with the model", "7 C15", "generated model (translator over rustdoc JSON) + induction over the type language + rustc corpus and grid")
+CLAIMED["C16"] = ("partial (ownership ledger, not a memory model)", "the boxed collection's drop / try_new-reject / into_child paths written as the source's ownership primitives: every value dropped exactly once, cell and lock cache freed once, into_child returns exactly the stored values, and the variant without mem::forget is refuted; the monitor holds of the model for every kind, path, size 0..6 (finite domain, by evaluation); drop-counting payloads through every kind x container x lock type x size 0..4 x path, exhaustively, on the implementation", "7 C16", "induction over value lists + exhaustive evaluation + differential execution with drop counters")
 PENDING = {}
 props = [json.loads(l) for l in open(os.path.join(V, "properties.jsonl"))]
 checks, na = [], []
